@@ -26,6 +26,9 @@ func FuzzBind(f *testing.F) {
 	methods := []string{"GET", "POST", "PUT", "PATCH", "DELETE", "OPTIONS", "HEAD"}
 	cts := []string{"application/x-www-form-urlencoded", "multipart/form-data; boundary=verifharnessboundary0123456789", "application/json", "application/xml", "text/plain", ""}
 	f.Fuzz(func(t *testing.T, mi, ci byte, body []byte, query string) {
+		if len(body) > 4000 || len(query) > 1000 {
+			return
+		}
 		binding.ResetValidator()
 		method, ct := methods[int(mi)%len(methods)], cts[int(ci)%len(cts)]
 		target := "/x"
